@@ -31,11 +31,44 @@ pub struct Sched {
     outer: Vec<Stmt>,
     inner: Vec<Vec<Stmt>>,
     counters: u8,
+    /// overtaking statement j of outer i runs as an explicit transaction when bit (i+j) is set
+    #[serde(default)]
+    txn_mask: u32,
 }
 
 struct SharedDb(*mut capi::ndb_db_t);
 unsafe impl Send for SharedDb {}
 unsafe impl Sync for SharedDb {}
+
+fn stmt_text(s: &Stmt) -> (String, String) {
+    match s {
+        Stmt::Inc { k, d } => ("MATCH (c:Counter {k: $k}) SET c.v = c.v + $d".to_string(), format!("{{\"k\": {k}, \"d\": {d}}}")),
+        Stmt::MergeOnce { k } => ("MERGE (m:Once {k: $k})".to_string(), format!("{{\"k\": {k}}}")),
+        Stmt::Append { k, d } => ("MATCH (c:Counter {k: $k}) SET c.log = c.log + [$d]".to_string(), format!("{{\"k\": {k}, \"d\": {d}}}")),
+    }
+}
+
+/// The same statement through an explicit transaction (`ndb_begin_write`, `ndb_txn_query`,
+/// `ndb_txn_commit`): another way of committing that auto-commit statements must serialize with.
+fn exec_in_txn(db: *mut capi::ndb_db_t, s: &Stmt) -> Result<u32, String> {
+    use std::ffi::CString;
+    let (q, p) = stmt_text(s);
+    let q = CString::new(q).unwrap();
+    let p = CString::new(p).unwrap();
+    let mut txn: *mut capi::ndb_txn_t = std::ptr::null_mut();
+    if capi::ndb_begin_write(db, &mut txn) != capi::NDB_OK {
+        return Err(crate::capi_util::last_error_message());
+    }
+    if capi::ndb_txn_query(txn, q.as_ptr(), p.as_ptr()) != capi::NDB_OK {
+        let e = crate::capi_util::last_error_message();
+        capi::ndb_txn_rollback(txn);
+        return Err(e);
+    }
+    if capi::ndb_txn_commit(txn) != capi::NDB_OK {
+        return Err(crate::capi_util::last_error_message());
+    }
+    Ok(1)
+}
 
 fn exec(db: *mut capi::ndb_db_t, s: &Stmt) -> Result<u32, String> {
     use std::ffi::CString;
@@ -118,7 +151,7 @@ fn verify(db: &CDb, exp: &Expect, counters: u8, how: &str) -> CaseResult {
 
 struct Overtake {
     db: SharedDb,
-    queue: Mutex<Vec<Stmt>>,
+    queue: Mutex<Vec<(Stmt, bool)>>,
     results: Mutex<Vec<(Stmt, bool)>>,
     overlapped: Mutex<u64>,
 }
@@ -128,10 +161,10 @@ impl Hooks for Overtake {
         if point != "capi.write.after_snapshot" {
             return;
         }
-        let pending: Vec<Stmt> = std::mem::take(&mut *self.queue.lock().unwrap());
-        for s in pending {
+        let pending: Vec<(Stmt, bool)> = std::mem::take(&mut *self.queue.lock().unwrap());
+        for (s, via_txn) in pending {
             // the overtaking statements run without a handler queue of their own
-            let ok = exec(self.db.0, &s).is_ok();
+            let ok = if via_txn { exec_in_txn(self.db.0, &s).is_ok() } else { exec(self.db.0, &s).is_ok() };
             *self.overlapped.lock().unwrap() += 1;
             self.results.lock().unwrap().push((s, ok));
         }
@@ -153,7 +186,7 @@ fn sched_test(c: &Sched, obs: &mut Obs) -> CaseResult {
             Stmt::MergeOnce { k } => (1u8, *k),
         };
         same_node_overlap |= inner.iter().any(|x| key(x) == key(s));
-        *h.queue.lock().unwrap() = inner;
+        *h.queue.lock().unwrap() = inner.into_iter().enumerate().map(|(j, x)| (x, (c.txn_mask >> ((i + j) % 32)) & 1 == 1)).collect();
         let ok = exec(db.raw(), s).is_ok();
         if ok {
             exp.note(s, c.counters);
@@ -191,8 +224,9 @@ fn stress_test(c: &Stress, obs: &mut Obs) -> CaseResult {
             let (shared, acks, barrier) = (shared.clone(), acks.clone(), barrier.clone());
             sc.spawn(move || {
                 barrier.wait();
-                for s in t {
-                    if exec(shared.0, s).is_ok() {
+                for (n, s) in t.iter().enumerate() {
+                    let r = if n % 3 == 2 { exec_in_txn(shared.0, s) } else { exec(shared.0, s) };
+                    if r.is_ok() {
                         acks.lock().unwrap().push(s.clone());
                     }
                 }
@@ -231,7 +265,8 @@ pub fn run(ctx: &mut RunCtx) {
                     (Just(outer), prop::collection::vec(prop::collection::vec(stmt(counters), 0..3), m..=m), Just(counters))
                 })
             })
-            .prop_map(|(outer, inner, counters)| Sched { outer, inner, counters })
+            .prop_flat_map(|(outer, inner, counters)| (Just(outer), Just(inner), Just(counters), prop_oneof![Just(0u32), any::<u32>()]))
+            .prop_map(|(outer, inner, counters, txn_mask)| Sched { outer, inner, counters, txn_mask })
         },
         sched_test,
     );
